@@ -588,6 +588,10 @@ func checkC09(c *Check) {
 		{"implicit-std-alias-then-same-explicit-alias", "import (\n\t\"strings\"\n\tstrings \"lib.tsh\"\n)\n\nprint(strings.Contains(\"a\", \"a\"))\n", map[string]string{"lib.tsh": lib}, false},
 		{"same-std-module-twice-without-alias", "import (\n\t\"strings\"\n\t\"strings\"\n)\n\nprint(strings.Contains(\"a\", \"a\"))\n", nil, false},
 		{"std-module-under-two-aliases", "import (\n\ts1 \"strings\"\n\ts2 \"strings\"\n)\n\nprint(s1.Contains(\"a\", \"a\"), s2.HasPrefix(\"ab\", \"a\"))\n", nil, true},
+		{"std-module-with-extension", "import \"strings.tsh\"\n\nprint(strings.Contains(\"ab\", \"a\"))\n", nil, true},
+		{"std-modules-with-extension-and-alias", "import (\n\ts \"strings.tsh\"\n\to \"os.tsh\"\n)\n\nprint(s.HasSuffix(\"ab\", \"b\"), len(o.Shell()) > 0)\n", nil, true},
+		{"std-module-with-extension-in-local-file", "import m \"usesstd.tsh\"\n\nprint(m.Up())\n", map[string]string{"usesstd.tsh": "import \"strings.tsh\"\n\nfunc Up() bool {\n\treturn strings.HasPrefix(\"ab\", \"a\")\n}\n"}, true},
+		{"std-module-unknown-with-extension", "import \"string.tsh\"\n\nprint(1)\n", nil, false},
 		{"unknown-function", "import m \"lib.tsh\"\n\nprint(m.Nope())\n", map[string]string{"lib.tsh": lib}, false},
 		{"duplicate-alias", "import (\n\tm \"lib.tsh\"\n\tm \"lib2.tsh\"\n)\n\nprint(m.Pub())\n", map[string]string{"lib.tsh": lib, "lib2.tsh": lib + "// other\n"}, false},
 		{"missing-file", "import m \"nope.tsh\"\n\nprint(1)\n", nil, false},
